@@ -10,17 +10,31 @@ OK(r) ==
   CASE r.kind = "int_int"   -> IntToIntOK(r.v, r.ty, r.out)
     [] r.kind = "int_dec"   -> IntToDecOK(r.v, r.p, r.s, r.out)
     [] r.kind = "dec_dec"   -> DecToDecOK(r.v, r.s1, r.p, r.s, r.out)
+    (* cast chains mean the composition of the single casts. int_chain: v -> ty1 -> ty; dec_chain: the line carries the
+       OBSERVED result of the first cast alone as v (scale s1) and judges the second step of the nested form against it;
+       mid = "err" says the first cast alone failed, then the nested form must fail too *)
+    [] r.kind = "int_chain" -> IF InRange(r.ty1, r.v) THEN IntToIntOK(r.v, r.ty, r.out) ELSE r.out.k = "err"
+    [] r.kind = "dec_chain" -> IF r.mid = "err" THEN r.out.k = "err" ELSE DecToDecOK(r.v, r.s1, r.p, r.s, r.out)
     [] r.kind = "dec_int"   -> DecToIntOK(r.v, r.s1, r.ty, r.out)
     [] r.kind = "float_int" -> FloatToIntOK(r.v, r.s1, r.ty, r.out)
     [] r.kind = "text_int"  -> ParseIntOK(r.txt, r.ty, r.out)
+    [] r.kind = "text_dec"  -> TextToDecOK(r.txt, r.p, r.s, r.out)
     (* formatting: the printed text denotes the value, and parsing it back returns the value *)
     [] r.kind = "int_text"  -> r.out.k = "val" /\ IntText(r.txt, r.v) /\ r.rt.k = "val" /\ r.rt.v = r.v
     [] r.kind = "dec_text"  -> r.out.k = "val" /\ DecText(r.txt, r.v, r.s1) /\ r.rt.k = "val" /\ r.rt.v = r.v
     [] r.kind = "text_date" -> DateCastOK(r.y, r.m, r.d, r.out)
     [] r.kind = "date_text" -> r.out.k = "val" /\ r.rt.k = "val" /\ r.rt.v = r.v   \* days -> text -> days
+(* why a decimal -> decimal observation is wrong: the value is the correct rounding but has more digits than the target
+   precision allows ("precision"), or it is not the correct rounding at all ("value"), or the outcome class is wrong *)
+Why(r) ==
+  IF r.kind \in {"dec_dec", "dec_chain"} /\ r.out.k = "val" THEN
+       (IF r.s >= r.s1
+        THEN (IF r.out.v = Mul(r.v, Pow10(r.s - r.s1)) THEN "precision" ELSE "value")
+        ELSE (IF RoundHalfAwayRel(r.v, Pow10(r.s1 - r.s), r.out.v) THEN "precision" ELSE "value"))
+  ELSE IF r.out.k = "val" THEN "value" ELSE "outcome"
 TInit == l = 1
 TNext == /\ l <= Len(Rec) /\ l' = l + 1
-         /\ IF OK(Rec[l]) THEN TRUE ELSE PrintT(ToJson([mismatch |-> Rec[l].id]))
+         /\ IF OK(Rec[l]) THEN TRUE ELSE PrintT(ToJson([mismatch |-> Rec[l].id, why |-> Why(Rec[l])]))
 TSpec == TInit /\ [][TNext]_l
 Accepted == TLCGet("stats").diameter - 1 = Len(Rec)
 =============================================================================
